@@ -656,8 +656,13 @@ func init() {
 			if i%10 == 9 {
 				nOut = 13 + r.Intn(12) // several blocks; sort.Sort's small-slice path ends at 12 elements
 			}
+			seenMid := map[string]bool{} // MIDs are unique within a scenario (short random MIDs do collide)
 			for k := 0; k < nOut; k++ {
 				om := newOutMsg(genMessage(r, sp.mycall, "PEER", c.Budget(1500, 8000)))
+				if seenMid[om.mid] {
+					continue
+				}
+				seenMid[om.mid] = true
 				sp.outbox = append(sp.outbox, om)
 				cfg.expect[om.mid] = om.data
 				ords = append(ords, ord{om.mid, precedenceOf(om.title), len(fbbCompressed(om))})
@@ -695,9 +700,10 @@ func init() {
 			for k := 0; k < nIn; k++ {
 				om := newOutMsg(genMessage(r, "PEER", sp.mycall, c.Budget(1500, 8000)))
 				comp, maxLen := canonCompress(true, om.data)
-				if maxLen > 16 {
+				if maxLen > 16 || seenMid[om.mid] {
 					continue
 				}
+				seenMid[om.mid] = true
 				cfg.outbox = append(cfg.outbox, peerMsg{mid: om.mid, title: "Subject", plain: om.data, comp: comp})
 				peerPlain[om.mid] = om.data
 				switch r.Intn(6) {
